@@ -303,13 +303,20 @@ func renderStorm(rounds int) {
 				doc := M{"type": "Note", "name": fmt.Sprintf("title %d", i), "content": bio + "<h2>head</h2><a href=\"https://l.example/x\">link</a>", "mediaType": "text/html",
 					"attributedTo": []any{author("a"), author("b")},
 					"attachment":   []any{M{"type": "Link", "href": "https://m.example/att", "mediaType": mt}, M{"type": "Link", "href": "https://m.example/att2", "mediaType": "Video/" + mt}},
-					"replies":      M{"type": "Collection", "items": []any{M{"type": "Note", "content": bio}, M{"type": "Note", "content": "<ul><li>r</li></ul>"}}}}
+					"replies": M{"type": "Collection", "items": []any{M{"type": "Note", "content": bio}, M{"type": "Note", "content": "<ul><li>r</li></ul>"},
+						// the other renderers too (each reply is built in its own goroutine)
+						M{"type": "Note", "mediaType": "text/markdown", "content": fmt.Sprintf("# head %d\n\n* one\n* [two](https://l.example/%d)\n\n> quote %d", g, i, g)},
+						M{"type": "Note", "mediaType": "text/markdown", "content": fmt.Sprintf("**bold %d** and `code %d`", i, g)},
+						M{"type": "Note", "mediaType": "text/gemini", "content": fmt.Sprintf("# head %d\n=> https://l.example/%d link\n> quote\n* item", g, i)},
+						M{"type": "Note", "mediaType": "text/gemini", "content": fmt.Sprintf("=> https://l.example/g%d second %d", g, i)},
+						M{"type": "Note", "mediaType": "text/plain", "content": fmt.Sprintf("plain %d https://l.example/p%d text", g, i)},
+						M{"type": "Note", "mediaType": "text/plain", "content": fmt.Sprintf("another %d", i)}}}}
 				item := pub.New(doc, nil)
 				if t, ok := item.(pub.Tangible); ok {
 					_ = t.String(40 + g)
 					_ = t.Preview(30 + g)
 					if ch := t.Children(); ch != nil {
-						kids, _, _ := ch.Harvest(2, 0)
+						kids, _, _ := ch.Harvest(8, 0)
 						for _, k := range kids {
 							_ = k.String(20 + g)
 						}
